@@ -326,7 +326,7 @@ def _pick(vec, is_max):
         if sc.isc(d):
             continue
         v = vals[k] - vals[j] if is_max else vals[j] - vals[k]
-        sc.record_pc(d, ">" if v > 0 else "tie")
+        sc.record_pc(d, ">" if v > 0 else ("==" if CTX.allow_ties else "tie"))
     return k
 
 
